@@ -286,6 +286,11 @@ Inductive case :=
    [rendered] is what the real code wrote between the sentinels.
    ctx: 0 = text node, 1 = double-quoted attribute value *)
 | CHole (svc : N) (page field : str) (ctx : N) (payload rendered : str)
+(* a page-rendering call site whose page does not show the hostile inputs at all (constant title
+   and message): the body the real handler wrote with hostile text in every request- and
+   provider-controlled input that reaches the call site, and (as a recipe) the body the same
+   handler wrote for the benign variant of the same request. The model predicts equal bytes. *)
+| CSame (svc : N) (site : N) (real : str) (benign : list seg)
 (* a JSON error body: 0 = sso-proxy XHRError, 1 = sso-auth ErrorResponse with Accept: application/json *)
 | CJson (svc : N) (msg body : str).
 
@@ -313,6 +318,9 @@ Definition judge (c : case) : N :=
   | CHole svc page field ctx payload rendered =>
       let m := if ctx =? 0 then html_escape payload else attr_escape payload in
       code (negb (str_eqb m rendered)) (hole_inert payload rendered) 0
+  | CSame svc site real benign =>
+      let b := rebuild real benign in
+      code (negb (str_eqb real b)) (page_inert real b) 0
   | CJson svc msg body =>
       let m := if svc =? 0 then proxy_xhr_json msg else auth_error_json msg in
       code (negb (str_eqb m body)) (json_error_doc_ok body) 0
@@ -334,5 +342,6 @@ Definition classify (c : case) : N :=
   match c with
   | CPage svc _ data _ _ via => if data_special data then 1 + svc + 2 * via else 0
   | CHole svc _ _ ctx payload _ => if has_special payload then 11 + svc + 2 * ctx else 10
+  | CSame svc site _ _ => 30 + svc
   | CJson svc msg _ => if json_special msg then 21 + svc else 20
   end.
